@@ -10,6 +10,8 @@
 package main
 
 import (
+	"runtime/debug"
+	"strings"
 	"strconv"
 	"bufio"
 	"crypto/sha256"
@@ -142,6 +144,30 @@ func main() {
 		os.Exit(2)
 	}
 	o := newOut(*out)
-	g(o, rand.New(rand.NewSource(*seed)), *tier)
+	func() {
+		// a library call made while inputs are being built (an encoding, a constructor) is a use of the library like
+		// any other: if it panics, that is recorded as a line no trace specification accepts, not lost with the process
+		defer func() {
+			if r := recover(); r != nil {
+				stack := string(debug.Stack())
+				inLib := strings.Contains(stack, "github.com/insomniacslk/dhcp/")
+				if !inLib {
+					panic(r) // the harness's own fault
+				}
+				if len(stack) > 1500 {
+					stack = stack[:1500]
+				}
+				what := "panic while building inputs: " + fmt.Sprint(r)
+				// (the line has the fields of every trace schema, so that each trace specification reads it - and rejects it)
+				o.Emit(map[string]any{"op": "GeneratorPanic", "what": what, "where": stack, "bad": []string{what},
+					"fn": "GeneratorPanic", "builder": "GeneratorPanic", "family": "GeneratorPanic:" + fmt.Sprint(r), "entry": "generator",
+					"n": 0, "depth": 0, "allocKiB": 1 << 30, "retainedKiB": 1 << 30, "killed": false, "accepted": false, "steps": 1, "len": 0,
+					"proto": "panic", "in": []int{}, "ev": []any{map[string]any{"a": "Panic", "what": what}},
+					"args": map[string]any{}, "out": map[string]any{"panic": what, "ok": false, "v": []any{}}, "mods": []any{}},
+					"library-panic-while-building-inputs", []byte(fmt.Sprint(r)), true)
+			}
+		}()
+		g(o, rand.New(rand.NewSource(*seed)), *tier)
+	}()
 	o.Close(o.extra)
 }
